@@ -166,6 +166,24 @@ fn km(c: &Case) -> String {
     format!("{}/{}", if c.exact { "exact-normal" } else { "euclidean" }, if c.adam { "adam" } else { "dual-average" })
 }
 
+/// The step-size regime of the post-warmup draws, part of every failure signature so that a known finding about a
+/// saturated / unbounded step size does not hide a different defect of the same configuration.
+fn regime(steps: &[f64], max_step: f64) -> &'static str {
+    let mut s: Vec<f64> = steps.iter().copied().filter(|x| x.is_finite()).collect();
+    if s.is_empty() {
+        return "step-regular";
+    }
+    s.sort_by(|a, b| a.partial_cmp(b).unwrap());
+    let med = s[s.len() / 2];
+    if med > 1.5 * max_step {
+        "step-unbounded"
+    } else if med >= 0.5 * max_step {
+        "step-large"
+    } else {
+        "step-regular"
+    }
+}
+
 pub fn check_posterior(c: &Case, ndraws: usize, report: Option<&mut Vec<(String, f64)>>) -> Outcome {
     let mut o = Outcome::pass();
     let preset = if c.lowrank { Preset::LowRankNuts } else { Preset::DiagNuts };
@@ -179,6 +197,7 @@ pub fn check_posterior(c: &Case, ndraws: usize, report: Option<&mut Vec<(String,
     let n_tune = spec.num_tune as usize;
     let mut draws: Vec<Vec<Vec<f64>>> = vec![]; // [chain][draw][coord]
     let mut divergences = 0usize;
+    let mut steps: Vec<f64> = vec![];
     for chain in 0..4usize {
         spec.seed = c.seed.wrapping_mul(4).wrapping_add(chain as u64);
         let h = run_spec(&spec, LogDensity::new(c.target.density()).counting_only(), &c.target.init(chain), n_tune + ndraws, Keep::None);
@@ -194,8 +213,15 @@ pub fn check_posterior(c: &Case, ndraws: usize, report: Option<&mut Vec<(String,
             }
         }
         divergences += h.draws[n_tune..].iter().filter(|d| d.diverging).count();
+        steps.extend(h.draws[n_tune..].iter().map(|d| d.step_size));
         draws.push(h.draws[n_tune..].iter().map(|d| d.pos.clone()).collect());
     }
+    let km = |c: &Case| format!("{}:{}", km(c), regime(&steps, spec.da_max_step));
+    let diag = {
+        let mut st: Vec<f64> = steps.iter().copied().filter(|x| x.is_finite()).collect();
+        st.sort_by(|a, b| a.partial_cmp(b).unwrap());
+        format!("median post-warmup step size {:.4}, {divergences} post-warmup divergences", st.get(st.len() / 2).copied().unwrap_or(f64::NAN))
+    };
     let well_conditioned = matches!(c.target, Target::Iso { .. } | Target::Corr { .. });
     if well_conditioned && divergences > 0 {
         o.set_fail(format!("C04:{}:divergences-on-gaussian", km(c)), format!("{}: {divergences} post-warmup divergences on a well-conditioned Gaussian target ({}, d={d})", o.labels[0], c.target.class()));
@@ -231,13 +257,13 @@ pub fn check_posterior(c: &Case, ndraws: usize, report: Option<&mut Vec<(String,
     }
     if !(worst.0 <= Z_MAX) {
         o.set_fail(
-            format!("C04:{}:posterior-mismatch:{}", km(c), worst.1.split('[').next().unwrap_or("")),
-            format!("{} on {} (d={d}): |z| = {:.2} for {} (bound {Z_MAX})", o.labels[0], c.target.class(), worst.0, worst.1),
+            format!("C04:{}:posterior-mismatch:{}:{}", km(c), c.target.class(), worst.1.split('[').next().unwrap_or("")),
+            format!("{} on {} (d={d}): |z| = {:.2} for {} (bound {Z_MAX}); {diag}", o.labels[0], c.target.class(), worst.0, worst.1),
         );
         return o;
     }
     if !(min_ess >= ESS_MIN) {
-        o.set_fail(format!("C04:{}:low-ess", km(c)), format!("{} on {} (d={d}): effective sample size {min_ess:.0} of {} draws", o.labels[0], c.target.class(), 4 * ndraws));
+        o.set_fail(format!("C04:{}:low-ess:{}", km(c), c.target.class()), format!("{} on {} (d={d}): effective sample size {min_ess:.0} of {} draws; {diag}", o.labels[0], c.target.class(), 4 * ndraws));
         return o;
     }
     o.nontrivial(format!("{}/{}/{}", o.labels[0], c.target.class(), d));
